@@ -19,7 +19,7 @@ META = {
     ),
     "anchors": ["abelian_core.AbelianArray.from_blocks", "abelian_core.AbelianArray.from_fill_fn", "abelian_core.AbelianArray.from_dense", "abelian_core.AbelianArray.to_dense", "fermionic_core.FermionicArray.to_dense", "utils.from_dense", "abelian_core.AbelianArray.random"],
     "floors": {
-        "quick": {"evaluations": 8000, "distinct_nontrivial": 1200, "tables": {"ctor/plain": 800, "ctor/from_blocks": 800, "ctor/from_fill_fn": 800, "ctor/from_dense": 800, "ctor/utils.from_dense": 300, "ctor/random": 300, "roundtrip/to_dense-from_dense": 500, "roundtrip/projection": 800, "kind/generic_str": 300, "kind/generic_obj": 300, "kind/static": 800}},
+        "quick": {"evaluations": 8000, "distinct_nontrivial": 1200, "tables": {"ctor/plain": 800, "ctor/from_blocks": 800, "ctor/from_fill_fn": 800, "ctor/from_dense": 800, "ctor/utils.from_dense": 300, "ctor/random": 300, "roundtrip/to_dense-from_dense": 500, "roundtrip/projection": 800, "kind/generic_str": 300, "kind/generic_obj": 300, "kind/static": 800, "feature/index-from-unsorted-pairs": 300}},
         "thorough": {"evaluations": 250000, "distinct_nontrivial": 30000},
     },
     "wall": {"quick": 100, "thorough": 1500},
@@ -32,6 +32,15 @@ def spec_case(ctx, rng):
     ferm = rng.random() < 0.4
     nd = rng.randint(1, 3)
     idx = [gen.rand_index(sr, rng, sym, maxc=3, maxd=2) for _ in range(nd)]
+    if rng.random() < 0.3:
+        # indices given as a sequence of (charge, size) pairs in arbitrary order
+        idx2 = []
+        for ix in idx:
+            pairs = list(ix.chargemap.items())
+            rng.shuffle(pairs)
+            idx2.append(sr.BlockIndex(pairs if rng.random() < 0.5 else tuple(pairs), dual=ix.dual))
+        idx = idx2
+        ctx.count("feature", "index-from-unsorted-pairs")
     duals = [bool(ix.dual) for ix in idx]
     charge = gen.pick_charge(rng, sym, idx) if rng.random() < 0.6 else R.identity(sym)
     secs = gen.all_sectors(sym, idx, charge)
